@@ -173,7 +173,7 @@ def known_match(k, parts, failure):
 
 
 CLAIM = {
-    "text": "Theorems C05_ac13 / C05_ac12 / C05_known_finding_witness / C05_known_only_gillham / C05_update_df4_20 / C05_update_df17 / C05_downlink_df4 (Coq, closed): for every frame the altitude decoder is a function of the 13-bit field (bits 20-32) resp. the 12-bit field (bits 41-52) only and equals the specification (25 ft formula, zero code, negative -> none, Gillham in 100 ft) on every code outside the listed known findings; the listed codes are exactly pinned with the wrong value produced, all have Q=0, and a witness shows the unrestricted statement is false; the decoded value reaches the row on both update paths. Tied to the code on all 2^13 codes in DF4 and DF20 and all 2^12 codes in TC 9-18 with random other bits, first and later frames, +/-U +/-R, in dev and release builds.",
+    "text": "Theorems C05_ac13 / C05_ac12 / C05_known_finding_witness / C05_known_only_gillham / C05_update_df4_20 / C05_update_df17 / C05_downlink_df4 (Coq, closed): for every frame the altitude decoder is a function of the 13-bit field (bits 20-32) resp. the 12-bit field (bits 41-52) only and equals the specification (25 ft formula, zero code, negative -> none, Gillham in 100 ft) on every code outside the listed known findings; the listed codes are exactly pinned with the wrong value produced, all have Q=0, and a witness shows the unrestricted statement is false; the decoded value reaches the row on both update paths. Tied to the code on all 2^13 codes in DF4 and DF20 and all 2^12 codes in TC 9-18 with random other bits, first and later frames, +/-U +/-R, in dev and release builds. Through the whole pipeline also for the frame that CREATES the row (C05_new_row_df17, C05_new_row_df4), and a surface-position squitter blanks the altitude on both paths (C05_surface_blanks).",
     "note": "KNOWN FINDINGS K1a/K1b (Gillham decoding) are listed in known_findings.json by exact code set and produced value; they cannot be repaired with the unedited test-suite (tests pin a wrong value). M=1 codes are unconstrained by the property.",
     "technique": "Coq proof: locality lemmas + kernel-evaluated sweeps against an independent altitude-code specification; known-finding class as explicit hypothesis with witness; exhaustive code sweeps in the differential runs",
 }
